@@ -15,12 +15,12 @@ primary_caught=sum(1 for r in rows if r[1] in r[4])
 first_try=sum(1 for r in rows if r[1] in r[4] and not r[6])
 out=[]
 out.append("\n## 13. Sensitivity — independent seeded changes and which checks catch them\n")
-out.append(f"""{n} breaking changes were written by fresh sub-agents in thirteen rounds. Each agent
+out.append(f"""{n} breaking changes were written by fresh sub-agents in fourteen rounds. Each agent
 was given only the text of one property (two from round 4 on) and a scratch git worktree of `/repo`
 (nothing from `/verif`); rounds 2-4 were additionally told which ideas
 the earlier rounds had used; round 3 was steered towards size / shape
 thresholds, three threads, shard layouts, deadlocks and less exercised types,
-round 4 was asked for the hardest-to-observe change it could still demonstrate,\nround 5 for rare configurations combined with a history, interleaving or fault,\nround 6 for what a careful randomized checker could still overlook,\nround 7 for structurally different directions (three interacting objects, forwarding wrappers, table sizes, ...),\nround 8 for concurrency slips only (lock order, publication order of flags, claim flags, in-place mutation of lent data, state copied by Clone mid-operation; plain std primitives that bypass the seam were allowed),\nround 9 for what a randomized differential checker still overlooks: fault paths after which a later call misbehaves, magic sizes (counts / lengths next to powers of two, narrow index types), rare characters or field combinations, arithmetic at the edge of the domain;\nround 10 repeated that brief for other property pairs,\nround 11 asked for what is still overlooked once those sizes, faults and histories are drawn on purpose (state that outlives one object or call, two rare conditions at once, rarely combined observers such as Debug, rarely taken option branches),\nround 12 for code paths the earlier changes had not touched,\nround 13 got one angle per agent (failure of a collaborator such as a child source or an on_source / on_name callback that unwinds once; the number of live clones / reference counts; particular sink or reader behaviours; multi-step ownership histories; different wrappers around one value; two cooperating sites; the replay path; lesser used types and constructors; lazily filled memos under concurrency).
+round 4 was asked for the hardest-to-observe change it could still demonstrate,\nround 5 for rare configurations combined with a history, interleaving or fault,\nround 6 for what a careful randomized checker could still overlook,\nround 7 for structurally different directions (three interacting objects, forwarding wrappers, table sizes, ...),\nround 8 for concurrency slips only (lock order, publication order of flags, claim flags, in-place mutation of lent data, state copied by Clone mid-operation; plain std primitives that bypass the seam were allowed),\nround 9 for what a randomized differential checker still overlooks: fault paths after which a later call misbehaves, magic sizes (counts / lengths next to powers of two, narrow index types), rare characters or field combinations, arithmetic at the edge of the domain;\nround 10 repeated that brief for other property pairs,\nround 11 asked for what is still overlooked once those sizes, faults and histories are drawn on purpose (state that outlives one object or call, two rare conditions at once, rarely combined observers such as Debug, rarely taken option branches),\nround 12 for code paths the earlier changes had not touched,\nround 13 got one angle per agent (failure of a collaborator such as a child source or an on_source / on_name callback that unwinds once; the number of live clones / reference counts; particular sink or reader behaviours; multi-step ownership histories; different wrappers around one value; two cooperating sites; the replay path; lesser used types and constructors; lazily filled memos under concurrency),\nround 14 likewise (a failure that coincides with an interleaving; what clones of a cache share; what happens after a failure; clone / eq / hash of a ReplaceSource mid-history; sources as map keys across threads; text shapes in line splitting on the replay path; SourceMap value histories; three threads / shard layouts).
 Each change compiles, passes the unchanged 79 tests + 9 doctests, and comes
 with a demonstration that fails with the change and passes without it; all of
 that was re-confirmed with `tools/seed_eval.sh` in a scratch worktree before
